@@ -186,6 +186,17 @@ func (e *Engine) specCall(env *SpecEnv, x *SExpr) Value {
 	case "iface2":
 		need(2)
 		return IfaceV{Tag: e.evalSpecTerm(env, args[0]), Pay: e.evalSpecTerm(env, args[1])}
+	case "runestr":
+		need(1)
+		f := e.ctx.Func("rune2str", []*Sort{SInt}, SStr)
+		return T("("+f+" "+e.evalSpecTerm(env, args[0]).S+")", SStr)
+	case "deref":
+		need(1)
+		p, ok := e.evalSpec(env, args[0]).(PtrV)
+		if !ok {
+			sfail("deref needs a pointer")
+		}
+		return wrapTyped(e.load(env.st, p, p.Elem), p.Elem)
 	case "nilslice":
 		z := IntLit(0)
 		return SliceV{Arr: z, Off: z, Len: z, Cap: z}
